@@ -17,6 +17,12 @@ SPEC = {
         # observation is compared with the Lean wire model (c16-wire-model) and judged by the RFC
         # reference selection (judge-c16-wire)
         {"name": "c16wire", "quick_args": ["-n", "500"], "thorough_args": ["-n", "8000"], "timeout": 1500},
+        # (agent-wire) second, independently written wire oracle: views built by APPEND or by connector MessagesCreated,
+        # with and without UID gaps; additionally UID SEARCH <seq set>, the destination content of COPY/MOVE (by
+        # RFC822.SIZE) and a FETCH 1:* (UID FLAGS) probe after STORE; judged by judge-c16-sets (Driver/DJudgeSets.lean:
+        # Spec/SeqSetSpec.lean cross-checked against the self-contained twin Spec/SetSelect.lean). Directed: corpus/C16/*.sets
+        {"name": "c16sets", "quick_args": ["-cases", "80", "-variants", "2"],
+         "thorough_args": ["-cases", "1500", "-variants", "4"], "timeout": 2400},
     ],
     "trusted_base": [
         "Lean 4.33.0 kernel; axioms limited to propext, Classical.choice, Quot.sound (audited per theorem)",
